@@ -18,7 +18,7 @@ import z3
 
 from tpv import core, tlib
 from tpv.core import zint, zreal, Sym, Dim
-from tpv.spec import scenario, RowFn
+from tpv.spec import scenario, second_use, RowFn
 from .geom import POINTS, R1, R2, R3, DOM, tensor_of, cols, ensure_rows, sq, absz
 
 D = "torchphysics.problem.domains."
@@ -61,12 +61,18 @@ class Shapes:
                 vals = [S.real(f"{nm}{c}") for c in range(ncols)]
                 self.consts[nm] = [v.t for v in vals]
                 self.args[nm] = vals[0] if scalar else list(vals)
+            elif kind == "tconst":
+                # the constant handed over as a torch tensor: the domain keeps THIS tensor (DomainUserFunction returns
+                # it un-copied), so the frame obligation of Session.tensor covers 'the stored parameter is not updated'
+                T = S.tensor(nm, [] if scalar else [ncols])
+                self.consts[nm] = [zreal(T.val.at([] if scalar else [(c,)])) for c in range(ncols)]
+                self.args[nm] = T
             else:
                 f = RowFn(nm, ["t"], ncols, {"t": 1})
                 f.on_value = self._on_value
                 self.fns[nm] = f
                 self.args[nm] = f
-        if kind == "const":
+        if kind in ("const", "tconst"):
             for p in prim.pre(self.consts):
                 S.assume(p)
 
@@ -78,7 +84,7 @@ class Shapes:
 
     def at(self, tval):
         """shape values at parameter value t (z3 real) -- adds the precondition there"""
-        if self.kind == "const":
+        if self.kind in ("const", "tconst"):
             return self.consts
         vals = {nm: f.value_terms([tval]) for nm, f in self.fns.items()}
         for p in self.prim.pre(vals):
@@ -111,15 +117,20 @@ class Harness:
             self.K = S.int("K", 1)
             self.ptensor = S.tensor("tparam", [self.K, 1])
             self.params = S.new(POINTS, self.ptensor, S.new(R1, "t"))
-        self.shapes = Shapes(S, prim, kind, None)
-        self.dom = prim.construct(S, self.shapes.args)
+        # later rounds of a history scenario (spec.second_use) get the SAME domain object
+        self.shapes, self.dom = S.shared(("primitive", prim.name, id(prim), kind), lambda: self._make(S, prim, kind))
+
+    @staticmethod
+    def _make(S, prim, kind):
+        shapes = Shapes(S, prim, kind, None)
+        return shapes, prim.construct(S, shapes.args)
 
     @property
     def Kp(self):
         return 1 if self.K is None else self.K
 
     def vals(self, rowdigits):
-        if self.kind == "const":
+        if self.kind in ("const", "tconst"):
             return self.shapes.at(None)
         return self.shapes.at(zreal(self.ptensor.val.at([tuple(rowdigits), ()])))
 
@@ -664,7 +675,7 @@ def contains_scenario(prim, boundary):
             S.forall("accepts-exact-boundary-points", res, lambda q: z3.Implies(prim.onbd(*xv(q)), at(q)), cases=cs)
             S.forall("rejects-beyond-tolerance", res, lambda q: z3.Implies(at(q), prim.band(*xv(q))), cases=cs)
         if not boundary:
-            r2 = S.method(h.dom, "__contains__", pts).val if h.kind == "const" else None
+            r2 = S.method(h.dom, "__contains__", pts).val if h.kind in ("const", "tconst") else None
             if r2 is not None:
                 S.forall("dunder-contains-agrees", r2, lambda q: r2.at(q) == res.at(q))
 
@@ -677,7 +688,7 @@ def volume_scenario(prim):
     def f(S):
         h = Harness(S, prim)
         v = S.method(h.dom, "volume", h.params).val
-        S.ensure("one-value-per-row", z3.And(v.rank == 2, v.shape[-1].is_one, z3.Or(v.shape[0].size_term() == zint(h.Kp), z3.BoolVal(h.kind == "const" and v.shape[0].is_one))))
+        S.ensure("one-value-per-row", z3.And(v.rank == 2, v.shape[-1].is_one, z3.Or(v.shape[0].size_term() == zint(h.Kp), z3.BoolVal(h.kind in ("const", "tconst") and v.shape[0].is_one))))
         S.forall("measure-is-analytic-and-positive", v, lambda q: z3.And(v.at(q) == prim.meas(h.vals(q[0])), v.at(q) > 0), replay=lambda q: ("geo_prim", {"prim": prim.name, "kind": "volume", "shapes": h.vals(q[0])}))
         if prim.has_boundary:
             b = S.method(S.getattr(h.dom, "boundary"), "volume", h.params).val
@@ -1076,6 +1087,31 @@ def polygon_normal_rounded_instance(prim):
     return f
 
 
+def normal_same_as_fresh_object(prim):
+    def f(S):
+        N1 = S.int("N1", 1)
+        h = Harness(S, prim, S.cfg + "/rows", point_rows=N1)
+        bd = S.getattr(h.dom, "boundary")
+        X1 = S.tensor("X1", [N1, prim.dim])
+        with S.quiet():
+            S.method(bd, "normal", S.new(POINTS, X1, S.new(prim.space, "x")), h.params)
+        N2 = S.int("N2", 1)
+        X2 = S.tensor("X2", [N2, prim.dim])
+        pts2 = S.new(POINTS, X2, S.new(prim.space, "x"))
+        if h.kind == "fn":
+            p2 = S.new(POINTS, S.tensor("tparam2", [N2, 1]), S.new(R1, "t"))
+        else:
+            p2 = S.call(S.getattr(S.find(POINTS), "empty"))
+        with S.quiet():
+            used = S.method(bd, "normal", pts2, p2)
+            fresh = S.method(S.getattr(prim.construct(S, h.shapes.args), "boundary"), "normal", pts2, p2)
+        S.same_tensor("second-query-on-a-used-boundary-object-equals-the-query-on-a-fresh-one", used, fresh)
+
+    f.__name__ = f"{prim.name}_normal_does_not_depend_on_earlier_queries"
+    f.__doc__ = "history (relational): after normal() was asked for N1 arbitrary points / parameter rows, the SAME boundary object asked for N2 other points / rows returns entry by entry what a newly constructed domain returns -- so the contract proved for a fresh object holds after any one earlier query; the safety obligations of the three runs are those of the plain scenario and not repeated"
+    return f
+
+
 class _Oriented(ParallelogramP):
     pass
 
@@ -1088,34 +1124,43 @@ def _register():
             "parallelogram": [prim.cls + "._construct_parallelogram"],
             "triangle": [prim.cls + "._construct_triangle"],
         }.get(prim.name, [])
+
+        def both(prop, targets, configs, hist_configs, body, bounded=None, light=False):
+            """the scenario, and its history variant (spec.second_use): the same object asked again"""
+            scenario(prop, targets, configs=configs, bounded=bounded)(body)
+            if hist_configs:
+                scenario(prop, targets, configs=hist_configs, bounded=bounded)(second_use(body, light=light))
+
         for method in ("sample_random_uniform", "sample_grid"):
-            cfgs = CFGS
+            cfgs = CFGS + ["tconst/none"]
             if method == "sample_grid":
                 # call sites (GridSampler, domain operations) pass no parameters, one row, or rows the shape depends on
-                cfgs = ["const/none", "fn/1"] if prim.name in ("sphere", "parallelogram", "triangle") else ["const/none", "fn/1", "fn/K"]
+                cfgs = ["const/none", "fn/1", "tconst/none"] if prim.name in ("sphere", "parallelogram", "triangle") else ["const/none", "fn/1", "fn/K", "tconst/none"]
             for prop in ("C01", "C02"):
-                scenario(prop, [prim.cls + "." + method, DOMAIN + ".len_of_params"] + helpers, configs=cfgs)(sampling_scenario(prim, prop, method, False))
+                hist = ["fn/1", "tconst/none"] if prop == "C01" else []
+                heavy = method == "sample_grid" and prim.name in ("sphere", "parallelogram", "triangle")
+                both(prop, [prim.cls + "." + method, DOMAIN + ".len_of_params"] + helpers, cfgs, hist[:1] if heavy else hist, sampling_scenario(prim, prop, method, False), light=heavy)
                 if prim.has_boundary:
-                    scenario(prop, [prim.bcls + "." + method] + helpers, configs=cfgs)(sampling_scenario(prim, prop, method, True))
+                    both(prop, [prim.bcls + "." + method] + helpers, cfgs, hist, sampling_scenario(prim, prop, method, True))
                 if prim.name == "interval":
                     for side in ("boundary_left", "boundary_right"):
-                        scenario(prop, [D + "domain1D.interval.IntervalSingleBoundaryPoint." + method], configs=cfgs)(sampling_scenario(prim, prop, method, True, side))
+                        both(prop, [D + "domain1D.interval.IntervalSingleBoundaryPoint." + method], cfgs, hist, sampling_scenario(prim, prop, method, True, side))
         if prim.name in ("parallelogram", "triangle"):
             scenario("C01", [prim.bcls + "._transform_interval_to_boundary", prim.bcls + "._scale_points_on_side"], configs=["any"])(walk_helper_scenario(prim))
             # the same exact spec is the per-call law clause of the boundary samplers (C11): the walk is the arc-length
             # parametrisation of the perimeter (leg k is covered at constant speed with ITS OWN side length)
             scenario("C11", [prim.bcls + "._transform_interval_to_boundary", prim.bcls + "._scale_points_on_side"], configs=["any"])(walk_helper_scenario(prim))
-        scenario("C05", [prim.cls + "._contains", DOMAIN + ".__contains__"] + ([prim.cls + "._solve_lgs"] if prim.name in ("parallelogram", "triangle") else []), configs=["const", "fn"])(contains_scenario(prim, False))
+        both("C05", [prim.cls + "._contains", DOMAIN + ".__contains__"] + ([prim.cls + "._solve_lgs"] if prim.name in ("parallelogram", "triangle") else []), ["const", "fn", "tconst"], ["fn", "tconst"], contains_scenario(prim, False))
         if prim.has_boundary:
-            scenario("C05", [prim.bcls + "._contains"], configs=["const", "fn"])(contains_scenario(prim, True))
-        scenario("C10", [prim.cls + "._get_volume", DOMAIN + ".volume"] + ([prim.bcls + "._get_volume"] if prim.has_boundary else []), configs=CFGS)(volume_scenario(prim))
+            both("C05", [prim.bcls + "._contains"], ["const", "fn", "tconst"], ["fn", "tconst"], contains_scenario(prim, True))
+        both("C10", [prim.cls + "._get_volume", DOMAIN + ".volume"] + ([prim.bcls + "._get_volume"] if prim.has_boundary else []), CFGS + ["tconst/K"], ["fn/K", "tconst/K"], volume_scenario(prim))
         if prim.name != "point":
-            scenario("C10", [prim.cls + ".sample_random_uniform", DOMAIN + ".compute_n_from_density"], configs=["const/none", "fn/1"])(density_scenario(prim, False))
+            both("C10", [prim.cls + ".sample_random_uniform", DOMAIN + ".compute_n_from_density"], ["const/none", "fn/1", "tconst/none"], ["tconst/none"], density_scenario(prim, False))
             if prim.name in ("interval", "circle", "sphere"):
                 scenario("C10", [prim.cls + ".sample_random_uniform", DOMAIN + ".compute_n_from_density"], configs=["fn/1-then-fn/1"])(density_history_scenario(prim, False))
             if prim.has_boundary:
-                scenario("C10", [prim.bcls + ".sample_random_uniform", DOMAIN + ".compute_n_from_density"], configs=["const/none", "fn/1"])(density_scenario(prim, True))
-        scenario("C18", [prim.cls + ".bounding_box"] + ([BDOMAIN + ".bounding_box"] if prim.has_boundary else []), configs=CFGS)(bbox_scenario(prim))
+                both("C10", [prim.bcls + ".sample_random_uniform", DOMAIN + ".compute_n_from_density"], ["const/none", "fn/1", "tconst/none"], ["tconst/none"], density_scenario(prim, True))
+        both("C18", [prim.cls + ".bounding_box"] + ([BDOMAIN + ".bounding_box"] if prim.has_boundary else []), CFGS + ["tconst/K"], ["fn/K", "tconst/none"], bbox_scenario(prim))
         if prim.has_boundary:
             if prim.name in ("parallelogram", "triangle"):
                 scenario("C06", [prim.bcls + "._get_normal_direction"], configs=["any"])(normal_direction_helper_scenario(prim))
@@ -1123,15 +1168,10 @@ def _register():
                 for ori in ("ccw", "cw"):
                     p4 = type(prim)()
                     p4.orientation = ori
-                    scenario("C06", [prim.bcls + ".normal", prim.bcls + "._add_local_normal_vector", BDOMAIN + "._transform_input_for_normals"], configs=["const", "fn"])(polygon_normal_modular(p4))
-                for ori in ():
-                    p2 = type(prim)()
-                    p2.orientation = ori
-                    g = normal_scenario(p2)
-                    g.__name__ = f"{prim.name}_normal_{ori}"
-                    scenario("C06", [prim.bcls + ".normal", prim.bcls + "._get_normal_direction", prim.bcls + "._add_local_normal_vector", BDOMAIN + "._transform_input_for_normals"], configs=["const", "fn"])(g)
+                    both("C06", [prim.bcls + ".normal", prim.bcls + "._add_local_normal_vector", BDOMAIN + "._transform_input_for_normals"], ["const", "fn", "tconst"], [], polygon_normal_modular(p4))
             else:
-                scenario("C06", [prim.bcls + ".normal", BDOMAIN + "._transform_input_for_normals"], configs=["const", "fn"])(normal_scenario(prim))
+                both("C06", [prim.bcls + ".normal", BDOMAIN + "._transform_input_for_normals"], ["const", "fn", "tconst"], ["fn", "tconst"], normal_scenario(prim))
+            scenario("C06", [prim.bcls + ".normal"], configs=["fn", "tconst"])(normal_same_as_fresh_object(prim))
 
 
 _register()
